@@ -1899,6 +1899,7 @@ where
         // Step 2: Sort by size descending for better packing.
         token_sizes.sort_unstable_by_key(|b| std::cmp::Reverse(b.1));
 
+        anda_db_utils::verif_point!("bm25.compact.snapshot_done");
         // Step 3: Best-fit-decreasing bin packing in O(n log n).
         // `by_remaining` maps remaining-capacity -> bin indices. We pick the bin with the
         // smallest remaining capacity that still fits the token (best fit), which keeps
@@ -1939,6 +1940,7 @@ where
         }
 
         // Step 4: Rebuild buckets.
+        anda_db_utils::verif_point!("bm25.compact.before_rebuild");
         self.buckets.clear();
         let new_count = bins.len();
         let max_id = new_count.saturating_sub(1) as u32;
